@@ -76,6 +76,19 @@ def handler(case):
             if abs(total[j] - outage[j]) > tol:
                 cls = "/".join(l.split(",")[j] for l in labels)
                 viols.append(("relrad.duration", f"{b.name}: RELRAD class {cls} (u unaffected, s sectioning time only, r until repair) prescribes {total[j]} h outage, recorded {outage[j]} h (sectioning {T} h, step {dt} h, faults {case['faults']})"))
+    # one interruption per contingency that interrupts the load point (non-overlapping contingencies add up)
+    if ops:
+        want_int = [0] * len(buses)
+        for labs, (k, n_, r, P) in zip(labels, expect_meta):
+            for j, c in enumerate(labs.split(",")):
+                if P > 0 and c != "u":
+                    want_int[j] += 1
+        for j, b in enumerate(buses):
+            if b.name == "B0" or b.n_customers == 0:
+                continue
+            got = float(b.acc_interruptions)
+            if outage[j] > 0 and abs(got - want_int[j]) > 0.02 * max(1, want_int[j]) and abs(total[j] - outage[j]) <= tol:
+                viols.append(("relrad.interruptions", f"{b.name}: {want_int[j]} contingencies interrupt this load point, {got} interruptions counted (faults {case['faults']})"))
     # energy and interruption counts against the recorded durations
     nlog = sum(1 for r in info if r["phase"] == "step")
     for b, o in zip(buses, outage):
